@@ -117,7 +117,13 @@
       `Proofs/AuditMac.response_mac_audit`: (1e), the MAC is the audit's `specMac`).
       `C10_audit_authenticated_nodata`: row 2 (authenticated, no-data verdict) — every clause but
       "answered normally" holds (`AuditWalk.auditResponse_authenticated`, `AnsweredNormally`), that
-      clause being a hypothesis.
+      clause being a hypothesis; `C10_audit_row2`: and with `plain` the response to the stripped
+      request that clause holds too, so row 2 returns no tag — (1f) for the no-data verdicts
+      (`Proofs/AuditPlain`: `specScanWith_lookup_indep` — question, EDNS state, UDP limit do not depend
+      on the catalog, the verdict is a pre-table verdict or the table's at the same position;
+      `endVerdict_transfer` — the guard's verdict equation, stated for the audit's catalog, holds for
+      the server's; `plain_nodata_decoded` — the unsigned no-data response decoded: RCODE, AA, TC, no
+      answer / authority records; `plain_nodata_of_comparable`).
 
   Recorded correction of the *oracle* (`Spec.ServerTsig.audit`): the clause "answered normally"
   compares with the response to `stripTsigRr req`, which decrements ARCOUNT (octets 10–11).  The name
@@ -138,8 +144,8 @@
 
   Proved: (a)–(m).  Not proved, precisely:
   (1) `C10_full` itself.  Of the audit, the clauses of `auditResponse` *after* the response is decoded
-      remain for rows 2–3, the authenticated requests (row 4 is closed: `C10_audit_nofit`; row 1:
-      `C10_audit_rejected`), all of which needed first
+      remain for row 3, the authenticated requests a loaded zone answers (row 4 is closed:
+      `C10_audit_nofit`; row 1: `C10_audit_rejected`; row 2: `C10_audit_row2`), all of which needed first
       (1a) (closed: `C10_request_view`, (j)) the request-side link: `viewRequest` (the audit's own walk
            to the TSIG RR: `findTsig`, `specDecodeName`, `labelsOf`, `parseRdata`, the request prefix)
            yields the key name, RDATA fields and prefix of the model's `t` / `mw` of the same `TsigRun`;
@@ -192,6 +198,7 @@ import QV.Proofs.RequestFits
 import QV.Proofs.AuditWalk
 import QV.Proofs.AuditDecoded
 import QV.Proofs.AuditMac
+import QV.Proofs.AuditPlain
 import QV.Proofs.ServerSignedTable
 
 namespace QV.C10
@@ -1252,6 +1259,8 @@ structure AuditRun (cfg : Cfg) (cat : List Spec.Server.ZoneCfg) (tr : Transport)
   hpos : 12 ≤ d.pos
   hdsz : d.pos ≤ req.size
   hmsg : MsgOk mw.toList
+  hnext : d.pos ≤ d.next
+  hnsz : d.next ≤ req.size
   hview : Spec.ServerTsig.viewRequest hmSpec (specKeys cfg.keys) req now =
     some ⟨kn.labels, fieldsOf alg.labels rest, mw.toList, modelOutcome cfg.keys nowT kn alg rest mw.toList,
       Spec.ServerTsig.findKey (specKeys cfg.keys) kn.labels⟩
@@ -1268,9 +1277,9 @@ theorem auditRun_exists (cfg : Cfg) (cat : List Spec.Server.ZoneCfg) (tr : Trans
   have hnT : ∃ nowT, TimeSigned.tryFromUnix now = some nowT := by
     unfold TimeSigned.tryFromUnix; rw [if_pos hnow]; exact ⟨_, rfl⟩
   obtain ⟨nowT, hnT⟩ := hnT
-  obtain ⟨t, mw, r', question, d, kn, alg, rest, h1, h2, h3, h4, h5, h6, h7, h8, h9, h10, h11, h12⟩ :=
+  obtain ⟨t, mw, r', question, d, kn, alg, rest, h1, h2, h3, h4, h5, h6, h7, h8, h9, h10, h11, h12, h13, h14⟩ :=
     request_outcome_ext cfg tr now 65535 req (minBuf_le tr _ hp16) hpay hreq (by rw [← a1]; exact hr) (a2.mp hv) hk nowT hnT
-  exact ⟨nowT, t, mw, r', question, d, kn, alg, rest, hr, hv, hnT, h1, h3, h4, h5, h2, h6, h7, h9, h10, h11, h12, h8⟩
+  exact ⟨nowT, t, mw, r', question, d, kn, alg, rest, hr, hv, hnT, h1, h3, h4, h5, h2, h6, h7, h9, h10, h11, h12, h13, h14, h8⟩
 
 open QV.ServerScan in
 /-- the audit of such a request is `auditResponse` on the view -/
@@ -1515,7 +1524,12 @@ theorem C10_audit_authenticated_nodata (cfg : Cfg) (cat : List Spec.Server.ZoneC
     (h : AuditRun cfg cat tr now req nowT t mw r' question d kn alg rest)
     (hrow : ServerContent.RowAuthNoData cfg tr now 65535 req t mw r')
     (b : Bytes) (hb : handleMessage cfg tr now 65535 req = .ok (some b)) (plain : Spec.ServerTsig.Resp)
-    (hdata : ∀ dm, Spec.specDecodeMsg b = some dm →
+    (hdata : ∀ dm v, Spec.specDecodeMsg b = some dm →
+      (v = Spec.Server.Verdict.formErr ∨ v = .notImp ∨ v = .refused ∨ v = .servFailZone) →
+      endVerdict (catKind cfg) req.size (Spec.Server.specScanWith (catKind cfg) cfg.payload req).question
+        r'.cursor ((req.getD 2 0).toNat / 8 % 16) = v →
+      dm.rcode = (Spec.Server.verdictRcode v).1 % 16 → dm.aa = false → dm.tc = false → dm.an = [] → dm.ns = [] →
+      (∀ x ∈ dm.ar, x.ty = 41 ∨ x.ty = 250) →
       AnsweredNormally dm (decide (tr = .udp)) (Spec.ServerTsig.plainComparable cat cfg.payload req) plain) :
     (Spec.ServerTsig.audit hmSpec cat cfg.payload (specKeys cfg.keys) req now (tr = .udp)
       (toResp (handleMessage cfg tr now 65535 req)) plain).1 = [] := by
@@ -1604,7 +1618,12 @@ theorem C10_audit_authenticated_nodata (cfg : Cfg) (cat : List Spec.Server.ZoneC
   subst eo
   have e18 : Writer.XR_BADTIME = 18 := by decide
   refine auditResponse_authenticated hmSpec _ _ _ _ _ now _ _ _ b plain dm o _ rkn hdm hfit' htsF q7 hl1 hlastT q4 q5
-    hl3 halgL rfl hoidm hidd rfl g6 ?_ ?_ ⟨k, hfk, ?_⟩ rfl hnow' (hdata dm hdm)
+    hl3 halgL rfl hoidm hidd rfl g6 ?_ ?_ ⟨k, hfk, ?_⟩ rfl hnow'
+    (hdata dm v hdm hvv hev g1 g2 g3 g4 g5 (fun x hx => by
+      rw [q1] at hx
+      rcases List.mem_append.mp hx with hx | hx
+      · exact Or.inl (q2 x hx)
+      · simp only [List.mem_singleton] at hx; subst hx; exact Or.inr q3))
   · rw [g1]; rcases hvv with rfl | rfl | rfl | rfl <;> decide
   · show (mac.getD []).length = (Spec.Tsig.outputSizeOf alg.labels).getD 0
     have e2' : Algorithm.fromName (Tsig.lowerName alg.wire) = some a := e2
@@ -1613,6 +1632,43 @@ theorem C10_audit_authenticated_nodata (cfg : Cfg) (cat : List Spec.Server.ZoneC
     have hm' : (fieldsOf alg.labels rest).mac = (viewRr kn alg rest).mac := hfa.mac
     rw [hm']
     exact this
+
+open QV.ServerScan in
+/-- **row 2 passes the audit**: an authenticated request with a no-data verdict, `plain` being the
+    response to the request without its TSIG record — "answered normally" included
+    (`plain_nodata_of_comparable`: under the audit's guard the stripped request gets the unsigned
+    no-data response of the same verdict) -/
+theorem C10_audit_row2 (cfg : Cfg) (cat : List Spec.Server.ZoneCfg) (tr : Transport) (now : Nat)
+    (req : Bytes) (hpay : 512 ≤ cfg.payload) (hp16 : cfg.payload ≤ 65535) (hreq : req.size ≤ Rdata.USIZE_MAX)
+    (hk : KeysOK cfg.keys)
+    {nowT : TimeSigned} {t : ReadTsigRr} {mw : Bytes} {r' : Reader.Reader} {question : Option (WName × Nat × Nat)}
+    {d : Spec.Server.Delim} {kn alg : WName} {rest : List UInt8}
+    (h : AuditRun cfg cat tr now req nowT t mw r' question d kn alg rest)
+    (hrow : ServerContent.RowAuthNoData cfg tr now 65535 req t mw r')
+    (b : Bytes) (hb : handleMessage cfg tr now 65535 req = .ok (some b)) :
+    (Spec.ServerTsig.audit hmSpec cat cfg.payload (specKeys cfg.keys) req now (tr = .udp)
+      (toResp (handleMessage cfg tr now 65535 req))
+      (match Spec.ServerTsig.stripTsigRr req with
+        | some p => toResp (handleMessage cfg tr now 65535 p)
+        | none => .none)).1 = [] := by
+  refine C10_audit_authenticated_nodata cfg cat tr now req hpay hp16 hk h hrow b hb _ ?_
+  intro dm v hdm hvv hev hrc haa htc han hns har pb pd hplain hpd
+  refine ⟨fun hc => (by rw [htc] at hc; cases hc), fun _ hptc hcmp => ?_⟩
+  obtain ⟨_, iq, _, _⟩ := h.scanM
+  rw [h.hcur] at hev
+  obtain ⟨p, hstrip, pb', hpb', hall⟩ := plain_nodata_of_comparable cfg cat tr now req hpay hp16 hreq d h.hfind h.hpos
+    h.hdsz h.hnext h.hnsz iq v hvv hev hcmp
+  rw [hstrip] at hplain
+  simp only [hpb', toResp, Spec.ServerTsig.Resp.bytes.injEq] at hplain
+  subst hplain
+  obtain ⟨p1, p2, p3, p4, _⟩ := hall pd hpd
+  refine ⟨by rw [hrc, p3], by rw [haa, p4], by rw [han, p1]; rfl, by rw [hns, p2]; rfl, ?_⟩
+  have : Spec.ServerTsig.plainRrs dm.ar = [] := by
+    unfold Spec.ServerTsig.plainRrs
+    rw [List.map_eq_nil_iff, List.filter_eq_nil_iff]
+    intro x hx
+    rcases har x hx with h1 | h1 <;> simp [h1]
+  rw [this]; rfl
 
 /-! ## non-vacuity: concrete instances of the hypotheses used above -/
 
